@@ -366,25 +366,22 @@ def _real_wait_mismatch(nmfu):
 
 
 def prove_wait(rep, nmfu, program, prop):
+    """whole function, for ONE arbitrary (state, transition) pair handed out by transitions_pointing_to; by contract:
+    self.match_contents.convert(handlers) returns the inner machine, sm.transitions_pointing_to(h, True) returns pairs whose transition
+    targets h.  The loop body touches only the transition at hand (clause `frame`), so iterations are independent and one arbitrary
+    pair covers every iteration.  Nothing is extracted by pattern: helper methods a refactoring introduces are simply inlined."""
     fnq = "WaitMatch.convert"
     rep.fn(fnq)
-    node = program.proto.funcs[fnq]
-    loops = [x for x in node.body if isinstance(x, ast.For)]
-    if len(loops) != 1 or not isinstance(loops[0].target, ast.Tuple) or len(loops[0].target.elts) != 2:
-        rep.undecided_ob(f"{prop}/pyvc/{fnq}/extraction", "expected one top-level `for state, trans in ...` loop")
+    if program.proto.funcs.get(fnq) is None:
+        rep.undecided_ob(f"{prop}/pyvc/{fnq}/extraction", "function not found")
         return 0
-    loop = loops[0]
-    it = ast.unparse(loop.iter)
-    if "transitions_pointing_to" not in it or "ErrorReasons.NO_MATCH" not in it:
-        rep.undecided_ob(f"{prop}/pyvc/{fnq}/extraction", f"loop iterates over `{it}`, expected sm.transitions_pointing_to(current_error_handlers[ErrorReasons.NO_MATCH], True)")
-        return 0
-    sname, tname = loop.target.elts[0].id, loop.target.elts[1].id
     nob = 0
     old_ms = getattr(Engine, "mutable_sets", False)
     Engine.mutable_sets = True
     try:
         for where in ("start", "inner", "outside"):
             ft0, eh0 = z3.Bool("ft0"), z3.Bool("eh0")
+            box = {}
 
             def body(eng, where=where):
                 Cc = Seg("char_actions")
@@ -398,17 +395,24 @@ def prove_wait(rep, nmfu, program, prop):
                 tr = SObj(nmfu.DFTransition, {"on_values": HList([ON]), "target": h, "is_fallthrough": ft0, "error_handling": eh0, "actions": HList([A])})
                 src.fields["transitions"].items.append(tr)
                 sm = SObj(nmfu.DFA, {"accepting_states": HList([]), "starting_state": start, "states": HList([start, inner])})
-                me = SObj(nmfu.WaitMatch, {"start_actions": HList([]), "finish_actions": HList([]), "char_actions": HList([Cc]), "match_contents": None})
-                env = {"self": me, "current_error_handlers": HDict({nmfu.ErrorReasons.NO_MATCH: h}), "sm": sm, sname: src, tname: tr}
-                try:
-                    v, fr = run_stmts(eng, fnq, loop.body, env)
-                except Exception as e:
-                    if type(e).__name__ == "_Continue":
-                        pass
-                    else:
-                        raise
-                return dict(Cc=Cc, A=A, ON=ON, h=h, start=start, inner=inner, outside=outside, tr=tr, sm=sm, src=src), {}
-            for ri, r in enumerate(explore(program, body, contracts=DEBUG_CONTRACTS)):
+                pat = SObj(nmfu.DirectMatch, {"start_actions": HList([]), "finish_actions": HList([]), "char_actions": HList([]), "match_contents": "x", "__sm": sm})
+                me = SObj(nmfu.WaitMatch, {"start_actions": HList([]), "finish_actions": HList([]), "char_actions": HList([Cc]), "match_contents": pat})
+                d = dict(Cc=Cc, A=A, ON=ON, h=h, start=start, inner=inner, outside=outside, tr=tr, sm=sm, src=src, me=me)
+                box["cur"] = d
+                v, _ = call_function(eng, fnq, [HDict({nmfu.ErrorReasons.NO_MATCH: h})], self_obj=me)
+                d["ret"] = v
+                return d, {}
+            cs = dict(DEBUG_CONTRACTS)
+            cs["DirectMatch.convert"] = lambda eng, a, kw: a[0].fields["__sm"]
+
+            def tpt(eng, a, kw):
+                d = box["cur"]
+                if a[0] is not d["sm"] or a[1] is not d["h"]:
+                    raise Unsupported("transitions_pointing_to called on something other than (inner machine, no-match handler)")
+                incl = a[2] if len(a) > 2 else kw.get("include_states", False)
+                return HList([(d["src"], d["tr"])]) if incl else HList([d["tr"]])
+            cs["DFA.transitions_pointing_to"] = tpt
+            for ri, r in enumerate(explore(program, body, contracts=cs)):
                 def replay(clause):
                     bad = _real_wait_mismatch(nmfu)
                     return (bad, True) if bad else ("wait \"ab\" built by the real function has the prescribed shape", False)
@@ -420,6 +424,7 @@ def prove_wait(rep, nmfu, program, prop):
                 cl.ok("iteration.no-exception")
                 b = r.value
                 t = _tr(b["tr"])
+                cl.structural("returns-inner-machine", b["ret"] is b["sm"], "the function must return the (edited) inner machine")
                 if where == "outside":
                     # a state reached only through an attached action is not part of what is waited for: untouched
                     cl.structural("iteration.outside-untouched", t["target"] is b["h"] and _same(t["actions"], [b["A"]]) and t["ft"] is ft0 and t["eh"] is eh0, "a transition of a state outside the waited-for machine was rewritten")
@@ -434,7 +439,8 @@ def prove_wait(rep, nmfu, program, prop):
                         cl.structural("iteration.inner-keeps-kind", t["ft"] is ft0, "away from the start state the transition must stay as the inner machine made it (a fall-through: the byte is re-dispatched at the start)")
                         cl.structural("iteration.inner-actions", _same(t["actions"], [b["A"]]), f"actions {_names(t['actions'])}, expected the old ones unchanged")
                 cl.structural("iteration.frame", _same(b["sm"].fields["states"], [b["start"], b["inner"]]) and b["sm"].fields["starting_state"] is b["start"] and _items(b["sm"].fields["accepting_states"]) == []
-                              and all(len(_items(s.fields["transitions"])) == (1 if s is b["src"] else 0) for s in (b["start"], b["inner"], b["outside"])) and len(_items(b["h"].fields["transitions"])) == 1,
+                              and all(len(_items(s.fields["transitions"])) == (1 if s is b["src"] else 0) for s in (b["start"], b["inner"], b["outside"])) and len(_items(b["h"].fields["transitions"])) == 1
+                              and _same(b["me"].fields["char_actions"], [b["Cc"]]),
                               "something other than the transition at hand was modified")
                 nob += cl.n
     finally:
